@@ -50,6 +50,9 @@ def day_relative_stamp(ts, day):
             if t_ in (('call', ('meth', 'time'), (day,), ()), ('call', ('meth', 'timetz'), (day,), ())):
                 return ('inexact', 'the event is stamped with the day\'s own time of day, which the days inherit from the start of the range')
         return None
+    day_relative_stamp.stripped = False
+    if ts[0] != 'rat' and inner is not ts and inner[0] == 'rat' and not ts[2][1:]:
+        ts = inner          # pd.Timestamp(<midnight of the day> + <offset>, tz=...): the zone is judged by the caller
     if ts[0] == 'rat':
         deltas = [s_ for s_ in T.subterms(ts) if s_[0] == 'call' and s_[1][0] == 'ext' and s_[1][1] in ('pandas.Timedelta', 'datetime.timedelta')]
         if len(deltas) != 1 or time_of_day(deltas[0]) is None:
@@ -59,6 +62,16 @@ def day_relative_stamp(ts, day):
         except Exception:
             return None
         off = time_of_day(deltas[0])
+    # the same midnight as a datetime.datetime, or with its zone taken off (the wall clock of a UTC day is kept): still that midnight
+    while base[0] == 'call' and ((base[1] == ('meth', 'to_pydatetime') and len(base[2]) == 1) or
+                                 (base[1] == ('meth', 'tz_localize') and len(base[2]) == 2 and base[2][1] == T.NONE and not base[3])) if hasattr(T, 'NONE') else False:
+        if base[1] == ('meth', 'tz_localize'):
+            day_relative_stamp.stripped = True
+        base = base[2][0]
+    if base[0] == 'call' and base[1] in (('meth', 'normalize'), ('meth', 'floor')) and base[2] and base[2][0][0] == 'call' and base[2][0][1] == ('meth', 'tz_localize') \
+            and len(base[2][0][2]) == 2 and not base[2][0][3] and fmt(base[2][0][2][1]) == 'None':
+        day_relative_stamp.stripped = True
+        base = (base[0], base[1], (base[2][0][2][0],) + tuple(base[2][1:]), base[3])
     if base == day:
         return ('inexact', 'the day is used with the time of day it inherits from the start of the range')
     if base[0] == 'call' and base[1] == ('meth', 'normalize') and base[2] == (day,):
@@ -141,7 +154,10 @@ def clock_events(ctx):
                                 rel = day_relative_stamp(ts, day)
                                 if rel is not None:
                                     tod = rel
-                                    same_day = tz = True
+                                    same_day = True
+                                    # the zone: the day's own (UTC) unless the stamp was rebuilt from a zone-less midnight, which then must be given UTC again
+                                    wrapped_ = ts[0] == 'call' and ts[1] == ('ext', 'pandas.Timestamp')
+                                    tz = tz if wrapped_ and ('tz' in dict(ts[3]) or day_relative_stamp.stripped) else (not day_relative_stamp.stripped)
                             et = f.get('event_type')
                             seq.append((et[1] if et and et[0] == 'str' else '?', tod, (same_day, tz)))
                     seqs.append((seq, cond_str(b)))
@@ -211,6 +227,29 @@ def check(ctx):
             ctx.violation('C12.S3', 'an end earlier than the start is rejected with ValueError', fn.site(),
                           'outcomes %s: with the same ordering of the bounds one way of calling the constructor is refused and another is accepted' % sorted(outs), key='C12.S3|%s' % rel)
             continue
+        if len(outs) > 1 and val.unknown:
+            # the test is an arithmetic one on the distance between the bounds (whole days spanned, seconds, ...): the same table with instants as day numbers, the end
+            # a fraction of a day, exactly one day and several days away from the start
+            from fractions import Fraction as F_
+            tab, unk = [], False
+            for d_ in {'<': ('-1/2', '-1', '-37/10'), '=': ('0',), '>': ('1/2', '1', '23/10')}[rel]:
+                nv = Valuation(order={('ending_day', 'starting_day'): rel}, nums={'starting_day': F_(10), 'ending_day': F_(10) + F_(d_)})
+                qs = summarise(ctx, fn, policy=default_policy, oracle=nv)
+                o_ = {('raise:' + q.state.exc[1]) if q.outcome == 'raise' else 'ok' for q in qs}
+                if len(o_) != 1:
+                    unk = True
+                    break
+                tab.append((d_, next(iter(o_))))
+            bad_ = [(d_, o_) for d_, o_ in tab if {o_} != want]
+            if not unk and bad_:
+                ctx.violation('C12.S3', 'an end earlier than the start is rejected with ValueError' if exp == 'raise' else 'end %s start constructs' % rel, fn.site(),
+                              'READ: with the end %s day(s) from the start the constructor %s (test: %s)' % (bad_[0][0], 'accepts the bounds' if bad_[0][1] == 'ok' else 'refuses with ' + bad_[0][1][6:],
+                                                                                                      sorted(set(val.unknown))[0][:100]), key='C12.S3|%s' % rel)
+                continue
+            if not unk:
+                ctx.undecided('C12.S3', 'construction is decided by the ordering of start and end alone', fn.site(),
+                              'end %s start is tested through %s; at the distances %s the outcome is the stated one, which is a table, not a proof' % (rel, sorted(set(val.unknown))[0][:100], [d_ for d_, _ in tab]))
+                continue
         if len(outs) > 1:
             # the outcome depends on something besides the ordering of the two bounds (e.g. whether the computed range is empty): not decided here
             ctx.undecided('C12.S3', 'construction is decided by the ordering of start and end alone', fn.site(), 'end %s start: outcomes %s depend on %s' % (rel, sorted(outs), sorted(set(val.unknown))[:3]))
